@@ -14,7 +14,9 @@ use serde_json::Value;
 
 pub const LEVEL: &str = "exploration";
 
-pub const FILE_NAMES: [&str; 10] = [
+pub const FILE_NAMES: [&str; 12] = [
+    "lib\u{1f600}\u{20bb7}.so.3",
+    "emoji_\u{1f600}.bin",
     "libplain.so",
     "lib with space.so.1",
     "lib\u{e9}\u{4e2d}.so.2.10",
@@ -302,7 +304,7 @@ pub fn check(c: &Case) -> Verdict {
 pub fn image_strategy() -> impl Strategy<Value = Image> {
     (
         crate::props::c14::spec_strategy(),
-        0u8..10,
+        0u8..12,
         proptest::collection::vec(prop_oneof![Just(1u8), Just(3u8), Just(5u8), Just(0u8)], 0..4),
         prop_oneof![3 => Just(5u8), 2 => Just(1u8), 1 => Just(3u8)],
         proptest::option::weighted(0.4, any::<u8>()),
@@ -320,7 +322,7 @@ pub fn case_strategy() -> impl Strategy<Value = Case> {
         proptest::collection::vec(
             (
                 prop_oneof![2 => (any::<u16>(), any::<u8>()).prop_map(|(module, extra)| UserG::Containing { module, extra }), 1 => any::<u16>().prop_map(|module| UserG::Partial { module }), 1 => Just(UserG::Disjoint)],
-                proptest::option::weighted(0.8, proptest::collection::vec(prop_oneof![(0x20u8..0x7f).prop_map(|c| c as char), Just('\u{e9}')], 0..20).prop_map(|v| v.into_iter().collect::<String>())),
+                proptest::option::weighted(0.8, proptest::collection::vec(prop_oneof![8 => (0x20u8..0x7f).prop_map(|c| c as char), 1 => Just('\u{e9}'), 1 => Just('\u{1f600}'), 1 => Just('\u{4e2d}')], 0..20).prop_map(|v| v.into_iter().collect::<String>())),
                 proptest::collection::vec(any::<u8>(), 0..33),
             ),
             0..4,
@@ -335,7 +337,7 @@ pub fn run(ctx: &mut LaneCtx) {
         SubSpec {
             name: "live-modules",
             cases: (960, 25_000),
-            rule: "1..6 synthetic ELF images per target (ELF kit: with/without build-id note via PT_NOTE or section, id lengths 0..64 incl. all-zero, with/without SONAME via PT_DYNAMIC/SHT_DYNAMIC, with/without section table, 64/32 bit, LE/BE) in files named with spaces / non-ASCII / .so.N versions, mapped loader-style in 1..4 parts of differing permissions with optional PROT_NONE gap, or 'APK style' from a non-zero offset, some unlinked after mapping, some non-ELF; direct auxv entry address inside a synthetic module or kernel auxv; 0..3 user mappings containing / partially overlapping / disjoint; oracle in assumptions; non-trivial = >=2 images with different feature sets or a user mapping that suppresses a module; distinct = hash of case",
+            rule: "1..6 synthetic ELF images per target (ELF kit: with/without build-id note via PT_NOTE or section, id lengths 0..64 incl. all-zero, with/without SONAME via PT_DYNAMIC/SHT_DYNAMIC, with/without section table, 64/32 bit, LE/BE) in files named with spaces / non-ASCII (also characters outside the Basic Multilingual Plane) / .so.N versions, mapped loader-style in 1..4 parts of differing permissions with optional PROT_NONE gap, or 'APK style' from a non-zero offset, some unlinked after mapping, some non-ELF; direct auxv entry address inside a synthetic module or kernel auxv; 0..3 user mappings containing / partially overlapping / disjoint; oracle in assumptions; non-trivial = >=2 images with different feature sets or a user mapping that suppresses a module; distinct = hash of case",
             strategy: case_strategy().boxed(),
             max_shrink_iters: 150,
             log_current: true,
